@@ -132,6 +132,19 @@ class Builder(object):
         self.ctx.symbols[name] = _SeqModelReader(n, arr)
         return seq
 
+    def spy(self, ghost, obj, method):
+        """Native replay wraps obj.method to log calls into ghost['delegated']; symbolically the callee's
+        call-site summary does the logging."""
+        return None
+
+    def gcode_command(self, name, code=None):
+        """A symbolic command string whose parsed items are symbolic (see pyvc.gitems)."""
+        from . import gitems
+        src = self.ctx.string(name)
+        self.ctx.assume(gitems.ItemsLen(src) >= 0, definitional=True)
+        self.ctx.symbols[name + ".items"] = gitems.ItemsReader(src)
+        return src
+
     def set_current_user(self, anonymous):
         self.ctx.ghost["anonymous"] = anonymous
 
@@ -196,9 +209,24 @@ def apply_contract(interp, con, finfo, full_args, kwargs, node):
     f = Frame(self_obj, locs, ctx, interp)
     f.g = ctx.ghost
     caller = ctx.fn_stack[-1] if ctx.fn_stack else "?"
+    caller_con = interp.registry.get(caller) if interp.registry is not None else None
     for cl in con.requires_:
-        ctx.oblige("%s/requires:%s@%s:L%s" % (con.qualname, cl.name, caller, getattr(node, "lineno", "?")),
-                   _b(cl.fn(f)), {"callee": con.qualname}, kind="call-pre")
+        oname = "%s/requires:%s@%s" % (con.qualname, cl.name, caller)
+        goal = _b(cl.fn(f))
+        cases = (caller_con.call_cases.get((con.qualname, cl.name)) if caller_con is not None else None) or {}
+        act = [c for c in (getattr(interp, "active_cases", None) or {}).get(oname, []) if c in cases]
+        meta = {"callee": con.qualname, "line": getattr(node, "lineno", None)}
+        if act:
+            top = getattr(interp, "frame", None)
+            guards = [(c, _b(cases[c](top))) for c in act]
+            ctx.oblige("%s[outside:%s]" % (oname, ",".join(act)), _b(ops.Or(goal, *[g for _, g in guards])), meta,
+                       kind="call-pre", assume_after=False)
+            for c, g in guards:
+                ctx.oblige("%s[inside:%s]" % (oname, c), _b(ops.Implies(g, goal)),
+                           dict(meta, expected="sat", case=c), kind="call-pre", assume_after=False)
+            ctx.assume(goal)
+        else:
+            ctx.oblige(oname, goal, meta, kind="call-pre")
     ctx.used_contracts.add(con.qualname)
     f.old = None
     fold = Frame(snapshot(self_obj), {k: snapshot(v) for k, v in locs.items()})
@@ -240,6 +268,9 @@ def apply_contract(interp, con, finfo, full_args, kwargs, node):
     f.result = res
     for cl in (con.caller_view_ or con.ensures_):
         ctx.assume(_b(cl.fn(f)))
+    if con.log_calls:
+        ctx.ghost.setdefault("delegated", []).append(
+            (finfo.name, dict((k, v) for k, v in locs.items() if k != "self"), res))
     if raised is not None:
         raise PyExc(raised, (ctx.string("exc.msg", record=False),))
     return res
@@ -263,6 +294,7 @@ def run_contract_paths(program, registry, con, active_cases=None, prefix=None, f
         ctx.opaque_apps = ops.APPLICATIONS
         interp = make_interp(program, ctx, registry, top=con.qualname)
         interp.force_inline = set(con.inline_callees)
+        interp.active_cases = active_cases
         b = Builder(ctx, interp)
         pre = con.pre_builder(b)
         self_obj = pre.get("self")
